@@ -1,5 +1,5 @@
 //! C10: bus decode. After every write of a generated history the whole 64 KiB read image is digested per region.
-//! c10 type=T rom=R ram=M hist=a:v;... | d=<12 window digests> io=<hex of 0xFF00..0xFF7F> fd=<digest of fetch view> rd=<digest of reads at the same addresses> fe=<digest of the fetch view over the echo aliases>
+//! c10 type=T rom=R ram=M hist=a:v;... (a = 65536: let 64*v clocks pass) | d=<12 window digests> io=<hex of 0xFF00..0xFF7F> fd=<digest of fetch view> rd=<digest of reads at the same addresses> fe=<digest of the fetch view over the echo aliases>
 use crate::mem::{get_executable_memory_slice, memory_read_byte, memory_write_byte, MemoryAreas};
 use crate::roms::*;
 use crate::util::{hex, Opts, Rng};
@@ -33,11 +33,17 @@ fn fetch_digests(p: *mut MemoryAreas) -> (u64, u64) {
   while a < 0x8000 { addrs.push(a); a += 7; }
   a = 0xc000; while a < 0xe000 { addrs.push(a); a += 3; }
   for a in 0xff80..0xffff { addrs.push(a); }
-  for e in [0x3fffusize, 0x4000, 0x7fff, 0xcfff, 0xd000, 0xdfff] { addrs.push(e); }
+  for e in [0x3ffdusize, 0x3ffe, 0x3fff, 0x4000, 0x7ffd, 0x7ffe, 0x7fff, 0xcffd, 0xcffe, 0xcfff, 0xd000, 0xdffe, 0xdfff] { addrs.push(e); }
   for a in addrs {
+    // the (up to three) bytes the slice hands to the decoder, against data reads of the same addresses
     let s = get_executable_memory_slice(a, p);
-    hf = fnv(hf, if s.len() > 0 { s[0] } else { 0 });
-    hr = fnv(hr, memory_read_byte(p, a as u16));
+    let n = s.len().min(3);
+    hf = fnv(hf, n as u8);
+    hr = fnv(hr, n as u8);
+    for k in 0..n {
+      hf = fnv(hf, s[k]);
+      hr = fnv(hr, memory_read_byte(p, (a + k) as u16));
+    }
   }
   (hf, hr)
 }
@@ -52,7 +58,9 @@ fn fetch_echo_digest(p: *mut MemoryAreas) -> u64 {
   for e in [0xefffusize, 0xf000, 0xfdff, 0xfe00, 0xfe9f] { addrs.push(e); }
   for a in addrs {
     let s = get_executable_memory_slice(a, p);
-    h = fnv(h, if s.len() > 0 { s[0] } else { 0 });
+    let n = s.len().min(3);
+    h = fnv(h, n as u8);
+    for k in 0..n { h = fnv(h, s[k]); }
   }
   h
 }
@@ -89,12 +97,17 @@ pub fn run(_sub: &str, opts: &Opts, w: &mut dyn Write) {
       idx += 1;
       let n = 1 + rng.below(12) as usize;
       // one write in six is a 16-bit write through memory_write_word (value = v * 257 + 1, low byte first), the rest byte writes
-      let hist: Vec<(u16, u8, bool)> = (0..n).map(|_| { let (a, v) = gen_write(&mut rng); let word = rng.chance(1, 6);
-        let a = if word && rng.chance(1, 3) { *rng.pick(&[0xdfffu16, 0xcfff, 0x9fff, 0xbfff, 0xfe9f, 0xfffe, 0xffff, 0x7fff, 0xfdff, 0xff7f]) } else { a }; (a, v, word) }).collect();
+      // one operation in six lets time pass (pseudo-address 65536: run_clock_cycles(64 * v) - up to 16320 clocks, i.e. through
+      // VBlank into the drawn lines and all LCD modes): what was stored must still be there, whatever the devices are doing
+      let hist: Vec<(u32, u8, bool)> = (0..n).map(|_| { let (a, v) = gen_write(&mut rng); let word = rng.chance(1, 6);
+        let a = if word && rng.chance(1, 3) { *rng.pick(&[0xdfffu16, 0xcfff, 0x9fff, 0xbfff, 0xfe9f, 0xfffe, 0xffff, 0x7fff, 0xfdff, 0xff7f]) } else { a };
+        if rng.chance(1, 6) { (65536u32, *rng.pick(&[1u8, 7, 71, 72, 73, 74, 75, 76, 80, 100, 150, 255]), false) } else { (a as u32, v, word) } }).collect();
       if idx % nshards != shard { continue; }
       let mut mem = mk_mem(t, r, m, &[]);
       let p = &mut mem as *mut MemoryAreas;
       for (a, v, word) in hist.iter() {
+        if *a == 65536 { mem.run_clock_cycles(crate::timing::ClockCycles::new(64 * *v as usize)); continue; }
+        let a = &(*a as u16);
         if *word { crate::mem::memory_write_word(p, *a, ((*v as u32 * 257 + 1) & 0xffff) as u16); } else { memory_write_byte(p, *a, *v); }
       }
       let (ds, io) = image_digests(p);
@@ -103,6 +116,8 @@ pub fn run(_sub: &str, opts: &Opts, w: &mut dyn Write) {
       // a word write appears in the line as its two byte writes (the spec of a 16-bit store)
       let mut hs: Vec<String> = Vec::new();
       for (a, v, word) in hist.iter() {
+        if *a == 65536 { hs.push(format!("65536:{}", v)); continue; }
+        let a = &(*a as u16);
         if *word { let x = ((*v as u32 * 257 + 1) & 0xffff) as u16; hs.push(format!("{}:{}", a, x & 0xff)); hs.push(format!("{}:{}", a.wrapping_add(1), x >> 8)); }
         else { hs.push(format!("{}:{}", a, v)); }
       }
